@@ -535,6 +535,36 @@ impl CompactEndPositions {
     }
 }
 
+/// Read-only view of the sequential-access cursor for the external verification harness.
+#[cfg(feature = "verif-hooks")]
+impl CompactEndPositions {
+    /// `[next_open_idx, adv_cumulative, ib_word_idx, ib_ones_before, last_ib_arg,
+    /// last_ib_result]` (`last_ib_arg == usize::MAX` means "no cached select").
+    pub fn verif_cursor(&self) -> [usize; 6] {
+        let c = self.cursor.get();
+        [
+            c.next_open_idx,
+            c.adv_cumulative,
+            c.ib_word_idx,
+            c.ib_ones_before,
+            c.last_ib_arg,
+            c.last_ib_result,
+        ]
+    }
+}
+
+#[cfg(feature = "verif-hooks")]
+impl EndPositions {
+    /// The compact variant's cursor (see [`CompactEndPositions::verif_cursor`]); `None`
+    /// for the dense variant, which has no cursor.
+    pub fn verif_cursor(&self) -> Option<[usize; 6]> {
+        match self {
+            Self::Compact(c) => Some(c.verif_cursor()),
+            Self::Dense(_) => None,
+        }
+    }
+}
+
 #[cfg(test)]
 mod tests {
     use super::*;
